@@ -17,8 +17,12 @@ extern unsigned long w_pm;
 #define W_CALL(F, ...) (w_pm ? (F)(__VA_ARGS__) : F(__VA_ARGS__))
 #define W_CALLV(F, ...) do { if (w_pm) (F)(__VA_ARGS__); else F(__VA_ARGS__); } while (0)
 /* two unparenthesised spellings of the same address: a typed pointer plus one element (trips a macro that casts to a byte
- * pointer) and, with w_pm == 2, an untyped pointer plus 16 bytes (trips a macro that casts to a structure pointer) */
-#define W_PT(T, x) w_pm == 2 ? (void*)((uint8_t*)(x) - ((x) ? 16 : 0)) + ((x) ? 16 : 0) : (T*)((uint8_t*)(x) - ((x) ? sizeof(T) : 0)) + ((x) ? 1 : 0)
+ * pointer) and, in the world built with W_UNTYPED, an untyped pointer plus 16 bytes (trips a macro that casts to a structure pointer) */
+#ifdef W_UNTYPED
+#define W_PT(T, x) (void*)((uint8_t*)(x) - ((x) ? 16 : 0)) + ((x) ? 16 : 0)
+#else
+#define W_PT(T, x) (T*)((uint8_t*)(x) - ((x) ? sizeof(T) : 0)) + ((x) ? 1 : 0)
+#endif
 
 /* ---------------- ACF-CAN ---------------- */
 void w_can_create(uint8_t* pdu, uint64_t id, uint8_t* payload, uint64_t len, uint64_t variant)
